@@ -112,6 +112,7 @@ RULES = {
     'R10': 'for [&]v in Q.iter() { B }  ->  for r10_i in 0..Q.len() { let v = [&]Q[r10_i]; B }',
     'R11': 'for x in (A..B).rev() { S }  ->  for r11_k in A..B { let x = B - 1 - (r11_k - A); S }',
     'R12': 'a private helper method without a contract and without `return` is inlined at its call sites: f(a, b) -> { let r12_0 = (a); let r12_1 = (b); let p = r12_0; let q = r12_1; BODY } (modular verification cannot see through an uncontracted call)',
+    'F1': 'a private struct field was renamed (same field types in the same order): the contract text follows the rename',
     'R6': 'Vec::last().copied() -> same call on a shim helper vec_last(&v) (contract: last element or None)',
 }
 
@@ -183,13 +184,16 @@ class Contract:
     """sections of a .vc file.  `== pre`, `== implspec`, `== post`, `== fn NAME`, `== loop NAME K`,
     `== loopend NAME K`, `== begin NAME`, `== end NAME`.  In fn/loop sections each clause starts with
     requires / ensures[LABEL|TAGS] / invariant[LABEL|TAGS] / decreases and ends at the next clause."""
-    def __init__(self, path):
+    def __init__(self, path, rename=None):
         self.sec = {}
         self.path = path
         cur = None
         if not os.path.exists(path):
             return
-        for ln in open(path).read().split('\n'):
+        text = open(path).read()
+        for o, n in (rename or {}).items():
+            text = re.sub(r'((?:\bself|old\(self\)|final\(self\)|\br|\bs0)\s*\.\s*(?:\w+\s*\.\s*)?)%s\b(?!\s*\()' % re.escape(o), lambda m: m.group(1) + n, text)
+        for ln in text.split('\n'):
             if ln.startswith('== '):
                 cur = ln[3:].strip()
                 if cur in self.sec: raise ExtractError('duplicate section %s in %s' % (cur, path))
@@ -388,6 +392,7 @@ def inject_fn(em, module, vc, header, body, is_trait_impl, struct_name):
             # anchor fingerprint: the loop a contract was written for is recognised by its header (loop variable abstracted);
             # if the header changed the invariants may no longer talk about this loop -> lost anchor, never an alarm
             fp = re.sub(r'\s+', ' ', re.sub(r'^for\s+\w+\s+in', 'for _ in', body[hs:b].strip()))
+            fp = re.sub(r'\.\.(=?).*$', r'..\1', fp)          # lower bound and range kind only: the upper bound may be respelt
             key = '%s::%s/loop%d' % (module, name, k)
             if RECORD_LOOPS is not None:
                 RECORD_LOOPS[key] = fp
@@ -540,8 +545,22 @@ def process_file(em, path, report):
     s = re.sub(r'impl(<T: Float>)? Default for [^{]*\{\s*fn default\(\) -> Self \{[^}]*\}\s*\}', '', s)
     orig_items = top_items(s)           # before M1, for the fidelity record
     s = monomorphise(s)
-    vc = Contract(os.path.join(VF, 'contracts', stem + '.vc'))
+    # private-field renames: the struct's field list (names and types, in order) was recorded when the contract was written; if only
+    # the names differ now, the contract text is renamed accordingly (self.OLD -> self.NEW) before it is used
+    rename = {}
+    sm = re.search(r'pub struct (\w+)[^{;]*\{([^}]*)\}', s)
+    if sm:
+        flds = [(a, re.sub(r'\s+', '', b)) for a, b in re.findall(r'\n\s*(?:pub\s+)?(\w+)\s*:\s*([^\n]+?),?\s*(?=\n)', '\n' + sm.group(2) + '\n')]
+        fkey = stem + '/fields'
+        if RECORD_LOOPS is not None:
+            RECORD_LOOPS[fkey] = flds
+        elif fkey in LOOP_HEADERS:
+            old = [tuple(x) for x in LOOP_HEADERS[fkey]]
+            if [t for _, t in old] == [t for _, t in flds] and [n for n, _ in old] != [n for n, _ in flds]:
+                rename = {o: n for (o, _), (n, _) in zip(old, flds) if o != n}
+    vc = Contract(os.path.join(VF, 'contracts', stem + '.vc'), rename)
     applied = set(['M1', 'M2'])
+    if rename: applied.add('F1')
     em.add('pub mod %s {' % stem)
     em.add('use vstd::prelude::*;\nuse vstd::view::View as SpecView;\nuse std::collections::VecDeque;\n'
            'use crate::shim::*;\nuse crate::shim::View;\nuse crate::lem::*;\nuse crate::alg::*;\nuse crate::alg2::*;\nuse crate::views::*;\n'
